@@ -196,6 +196,12 @@ var dictForallPrograms = []string{
 	"0 systemdict { pop pop 1 add } forall", "<< /a 1 /b (x) >> { pop pop } forall",
 	"/n 0 def << /a 1 /b 2 >> { pop pop /n n 1 add def } forall n", "5 dict begin << /x 1 /y 2 >> { def } forall x y end",
 	"<< /a 1 /b 2 >> { pop pop stop } forall", "errordict { pop pop } forall", "0 errordict { pop pop 1 add } forall",
+	// the entries are visited in the order of their keys (bytewise), whatever order they were written or stored in
+	"<< /b 2 /a 1 /c 3 >> { pop exit } forall", "<< /b 2 /a 1 >> { } forall", "<< /zz 1 /B 2 /a 3 /aa 4 /A 5 >> { pop } forall",
+	"<< /a 1 /b 2 /c 3 /d 4 >> { pop exit } forall", "<< /d 4 /c 3 /b 2 /a 1 >> { pop exit } forall", "errordict { pop exit } forall", "systemdict { pop exit } forall",
+	"/d << /b 2 /a 1 /c 3 >> def d { pop d exch undef } forall", "/d 5 dict def d /x 1 put d /m 2 put d /a 3 put d { } forall",
+	"/d << /a 1 /b 2 /c 3 >> def d { pop pop d /b known { d /zz 9 put } if } forall d length",
+	"<< /\351 1 /z 2 /\200 3 >> { pop } forall", "userdict /k2 1 put userdict /k1 2 put userdict { } forall",
 }
 
 var smallPool = []string{"0", "1", "-1", "3", "9223372036854775807", "-9223372036854775808", "0.5", "true", "/a", "(abc)", "[1 2 3]", "{1}", "<< /a 1 >>", "mark"}
@@ -295,9 +301,6 @@ func suiteOps(o *suiteOut, r *rng, tier string, n int) {
 			if i == len(pools) {
 				if k >= 2 && r.float() > frac {
 					return
-				}
-				if op == "forall" && (acc[0] == "systemdict" || acc[0] == "<< /a 1 /b (x) >>") {
-					return // the order in which forall visits a dictionary is arbitrary (PLRM; Go map order): see dictForallPrograms
 				}
 				prog := strings.Join(append(append([]string{}, acc...), op), " ")
 				p.run(50000, false, prog)
